@@ -40,6 +40,7 @@ def fmtOf (s : String) : Option (Fmt × Bool) :=
   if s = "8m" then some (⟨1, false, 7, 7, 3, 0, 3, 6⟩, true)
   else if s = "8" then some (⟨1, true, 7, 7, 3, 0, 3, 6⟩, false)
   else if s = "16" then some (⟨2, true, 31, 31, 31, 0, 5, 10⟩, false)
+  else if s = "24" then some (⟨3, true, 255, 255, 255, 0, 8, 16⟩, false)
   else if s = "32" then some (⟨4, true, 255, 255, 255, 0, 8, 16⟩, false)
   else none
 
@@ -132,18 +133,17 @@ def flushOne (s : Srv) (d : DCl) : Srv × DCl × Option String × Option (List (
   let pendSet' := d.pend.set &&& (fullSet ^^^ upd)
   match d.rq.shape, d.pend.shape with
   | some R, some P =>
-    if rectIn P R then
-      let S := corr same s.main.w s.main.h c.sw c.sh P
-      let pic' := match d.pic with
-        | some p => some (paste p simg S)
-        | none => none
-      (s, { d with pend := {}, rq := {}, pic := pic', insync := d.insync || upd == fullSet },
-       nfsS, some [(P, S)])
-    else
-      let ins := d.insync || upd == fullSet
-      (s, { d with pend := ⟨pendSet', none⟩, rq := {}, insync := ins,
-                   pic := if ins && pendSet' == 0 && d.pw == c.sw && d.ph == c.sh then some simg else none },
-       nfsS, none)
+    -- both regions are single rectangles: so is their (non-empty) intersection
+    let ix := max R.x P.x
+    let iy := max R.y P.y
+    let I : Rect := ⟨ix, iy, min (R.x + R.w) (P.x + P.w) - ix, min (R.y + R.h) (P.y + P.h) - iy⟩
+    let S := corr same s.main.w s.main.h c.sw c.sh I
+    let pic' := match d.pic with
+      | some p => some (paste p simg S)
+      | none => none
+    let pend' : Pend := if rectEq I P then {} else ⟨pendSet', none⟩
+    (s, { d with pend := pend', rq := {}, pic := pic', insync := d.insync || upd == fullSet },
+     nfsS, some [(I, S)])
   | _, _ =>
     let ins := d.insync || upd == fullSet
     (s, { d with pend := ⟨pendSet', none⟩, rq := {}, insync := ins,
@@ -320,6 +320,25 @@ def dstep (st : DState) (toks : List String) : DState × List String :=
       let cls := st.cls.map fun d => if d.live then { d with pend := d.pend.add s.main.w r } else d
       ({ st with srv := some s2, cls := cls }, ["ok"])
     | _, _, _, _, _ => bad
+  | some s, ["copy", x, y, w, h, dx, dy] =>
+    -- rfbDoCopyRect: the destination rectangle becomes a copy of the pixels at (-dx,-dy) from it
+    -- (memmove row by row in the order that never overwrites a source row first), the scaled copies
+    -- are refreshed on the destination, clients without CopyRect get it as a modified rectangle
+    match nat? x, nat? y, nat? w, nat? h, parseInt? dx, parseInt? dy with
+    | some x, some y, some w, some h, some dx, some dy =>
+      let sx : Int := (x : Int) - dx
+      let sy : Int := (y : Int) - dy
+      if w < 1 || h < 1 || x + w > s.main.w || y + h > s.main.h ||
+         sx < 0 || sy < 0 || sx + w > s.main.w || sy + h > s.main.h then bad else
+      let r : Rect := ⟨x, y, w, h⟩
+      let old := s.main.img
+      let fb := Img.tabulate s.main.w s.main.h fun X Y =>
+        if r.has X Y then old.get ((X : Int) - dx).toNat ((Y : Int) - dy).toNat else old.get X Y
+      let s1 := { s with main := { s.main with img := fb } }
+      let s2 := step s1 (.modify r)
+      let cls := st.cls.map fun d => if d.live then { d with pend := d.pend.add s.main.w r } else d
+      ({ st with srv := some s2, cls := cls }, ["ok"])
+    | _, _, _, _, _, _ => bad
   | some s, ["mark", x1, y1, x2, y2] =>
     match parseInt? x1, parseInt? y1, parseInt? x2, parseInt? y2 with
     | some x1, some y1, some x2, some y2 =>
@@ -434,6 +453,17 @@ def dstep (st : DState) (toks : List String) : DState × List String :=
     let cls1 := st.cls.map fun d => { d with lastPtr := none }
     let (s2, cls, _, _) := flushAll s cls1 0
     ({ st with srv := some s2, cls := cls }, ["ptrflush" ++ fmtPtrEvs evs])
+  | some s, ["scalecut", i, _] =>
+    -- truncated SetScale message followed by EOF: rfbReadExact fails, rfbCloseClient, reaped
+    match nat? i with
+    | some i =>
+      match getCl st i with
+      | none => bad
+      | some d =>
+        let s1 := step s (.leave i)
+        let (s2, cls, _, _) := flushAll s1 (putCl st.cls { d with live := false }) i
+        ({ st with srv := some s2, cls := cls, owner := if st.owner == some i then none else st.owner }, ["ok"])
+    | none => bad
   | some s, ["leave", i] =>
     match nat? i with
     | some i =>
